@@ -118,6 +118,25 @@ def wrapper_policy(fb):
     return lambda path, depth: ok(path)
 
 
+def pure_policy(fb):
+    """inline crate-local functions without loops and without `&mut` parameters"""
+    memo = {}
+
+    def ok(path, depth):
+        if path in memo:
+            return memo[path]
+        b = fb.body(path)
+        res = False
+        if b is not None and "inputs" in b.d:
+            from cfg import back_edges
+
+            res = not back_edges(b) and not any(fb.ty(i).k == "ref" and fb.ty(i).d.get("mut") for i in b.d["inputs"])
+        memo[path] = res
+        return res
+
+    return ok
+
+
 class SymExec:
     def __init__(self, eng, body):
         self.eng = eng
